@@ -1341,8 +1341,10 @@ def route_hops(v):
     def mk():
         n = v.choose(3, 'hops')
         hops = [hop(v, i, ('src',)) for i in range(n)]
-        if n == 2 and hops[1].src is not None:
-            v.assume(And(Not(contains(hops[1].src, ':')), Not(hops[1].src.startswith('['))))
+        if n == 2:
+            bare = v.choose(3, 'bare-hop')
+            if bare < 2 and hops[bare].src is not None:
+                v.assume(And(Not(contains(hops[bare].src, ':')), Not(hops[bare].src.startswith('['))))
         return hops
 
     return Parser(v, '_parse_forwarded_header', [mk])
@@ -1384,6 +1386,9 @@ for _src, _nm in ((1, 'x-forwarded-for'), (2, 'x-real-ip'), (3, 'remote-addr')):
 for _n in (0, 1, 2):
     harness(PROP, WREQ + '.access_route', name='wsgi_access_route[forwarded,hops=%d]' % _n, setup=_base_setup, inline=ROUTE_INLINE,
             fix=dict({'route-source': 0, 'hops': _n}, **({'lower-priority-headers-too': 0} if _n == 2 else {})))(lambda v: _access_route(v, False))
+for _b in (0, 2):
+    harness(PROP, WREQ + '.access_route', name='EXP_wsgi_access_route[forwarded,hops=2,bare=%d]' % _b, setup=_base_setup, inline=ROUTE_INLINE,
+            fix={'route-source': 0, 'hops': 2, 'lower-priority-headers-too': 0, 'bare-hop': _b})(lambda v: _access_route(v, False))
 harness(PROP, WREQ + '.access_route', name='wsgi_access_route_retry', setup=_base_setup, inline=ROUTE_INLINE,
         fix={'route-source': 0, 'lower-priority-headers-too': 0, 'has-REMOTE_ADDR': 0})(lambda v: _access_route(v, True))
 
